@@ -13,6 +13,7 @@ def run(tier, seed):
                      'conjunction of discharged safety VCs; every entry point is shown (on emitted text) to be _run over the right implementation.')
     run_rt(rep, rt_run.RUN + rt_final.FINAL + rt_errors.RT + rt_misc.EXC + [rt_walk.VisitC()], tier)
     wiring.entry_point_obligations(rep, tier)
+    wiring.rule_wrapper_obligations(rep, tier)
     wiring.derived_start_obligations(rep, tier)
     rep.assumptions.append('the shift clause (parse(text,k) vs parse(text[k:],0)) is not mechanised: positions are absolute indices in every '
                            'contract (leaves read text at p, never before it, re contract aside); stated as a paper consequence')
